@@ -284,10 +284,24 @@ def run_model(lines):
     n = min(NPROC, max(1, len(lines) // 200))
     chunks = [lines[i::n] for i in range(n)]
 
+    def big_stack():
+        # the extracted functions recurse over the argument lists: a megabyte-long haystack needs a deep stack
+        import resource
+        resource.setrlimit(resource.RLIMIT_STACK, (resource.RLIM_INFINITY, resource.RLIM_INFINITY))
+
     def work(ch):
-        p = subprocess.run([drv], input=("\n".join(ch) + "\n").encode(), stdout=subprocess.PIPE, stderr=subprocess.PIPE, timeout=3000)
+        p = subprocess.run([drv], input=("\n".join(ch) + "\n").encode(), stdout=subprocess.PIPE, stderr=subprocess.PIPE, timeout=3000,
+                           preexec_fn=big_stack)
+        if p.returncode != 0 and len(ch) > 1:
+            # one case the model cannot evaluate must not take the others down: case by case, the culprit answers "?"
+            out = []
+            for one in ch:
+                q = subprocess.run([drv], input=(one + "\n").encode(), stdout=subprocess.PIPE, stderr=subprocess.PIPE, timeout=3000,
+                                   preexec_fn=big_stack)
+                out.append(q.stdout.decode().split("\n")[0] if q.returncode == 0 else "S=?")
+            return out
         if p.returncode != 0:
-            raise Infra("model driver failed: " + p.stderr.decode()[-2000:])
+            return ["S=?"]
         o = p.stdout.decode().split("\n")
         if o and o[-1] == "":
             o.pop()
@@ -332,6 +346,13 @@ def compare_with_model(outdir):
         spec = m.get("S")
         s_obs, b_obs = obs[0], obs[1]
         ref = obs[2] if len(obs) > 2 else ""
+        if spec == "?" and ref and not case.startswith(("i.", "k.", "u.", "t.", "x.")):
+            # an exported function on an input the extracted model could not evaluate (a haystack too long for its
+            # recursion): decided against the harness's Go reference
+            if s_obs != ref or b_obs != ref:
+                mism.append({"case": case, "strcase": s_obs, "bytcase": b_obs, "spec": ref, "impl_model": None, "go_ref": ref,
+                             "note": "expected value from the Go reference: the extracted model could not evaluate this input"})
+            continue
         if spec is None or spec == "?":
             # an unexported strategy: compared with the structure-faithful model only; a
             # difference is a diagnostic (localises a fault / a refactoring), never a verdict
